@@ -16,10 +16,16 @@ CFG = dict(
          "(y, m, d) for days -800..800, leap-day neighbourhoods of 13 years, the range limits and random days; "
          "(y, m, d) validity and round trip incl. invalid dates; (6) every operator of impl_ops.rs with a NaT "
          "operand on the left, the right, and both (DateTime +- TimeDelta, DateTime - DateTime, duration_trunc, "
-         "TimeDelta neg / + / - / * i32, From<i64>, Time +- TimeDelta; both NaT encodings of TimeDelta). "
+         "TimeDelta neg / + / - / * i32, From<i64>, Time +- TimeDelta; both NaT encodings of TimeDelta); "
+         "(7) on the values of (2): is_nat / is_not_nat of DateTime<U>, Time and TimeDelta::from(i64), "
+         "into_opt_i64(from_opt_i64(Some x)), from_opt_i64(None) (fn=flags); on the values of (3): the TryFrom<DateTime<U>> "
+         "impl called directly (no NaT test by the caller), the deprecated to_cr, and From<chrono> of the TryFrom result "
+         "(fn=tryfrom). "
          "non-trivial = distinct case descriptions not tagged nt=0",
-    theorem_hint="Props/C16.v: C16_nat_conv_*, C16_nat_ops_*, C16_coarsen_*, C16_refine_back, C16_cr_roundtrip*",
-    level_text="Proof: 22 theorems (Props/C16.v, axiom-free, over Z) about the Gallina model of tea-time "
+    theorem_hint="Props/C16.v: C16_nat_conv_*, C16_nat_ops_*, C16_coarsen_*, C16_refine_back, C16_cr_roundtrip*, C16_try_from_*, C16_is_not_nat",
+    level_text="Proof: 30 theorems (Props/C16.v, axiom-free, over Z; the last 8 — is_not_nat for the three types, the "
+               "Option<i64> view both ways, TryFrom = as_cr on every timestamp of every unit incl. NaT, its round trip, "
+               "to_cr = as_cr — about Model/TimeAccess.v) about the Gallina model of tea-time "
                "(Model/Time.v): NaT through every conversion and every operator; coarsening = Euclidean floor of the "
                "instant (also before 1970) and equal to the conversion through chrono's (secs, nanos) model; refine-and-"
                "back identity; as_cr/From<chrono> round trips; the executable proleptic-Gregorian calendar is a "
